@@ -1,25 +1,51 @@
 #!/bin/sh
-# MANIFEST.setup_cmd: build everything from files on disk only (offline).
+# MANIFEST.setup_cmd: build everything the claimed checks need, from files on disk only (offline).
 set -e
 cd "$(dirname "$0")"
 export CARGO_NET_OFFLINE=true
+ulimit -s unlimited 2>/dev/null || ulimit -s 1000000 2>/dev/null || true
 mkdir -p work evidence/replays ocaml/gen ocaml/bin coq/Gen
 python3 tools/translate.py /repo coq/Gen
 cd coq
 (echo "-Q . SV"; find . -name '*.v' | sed 's|^\./||' | grep -viE '(^|/)(tmp|dbg|debug|scratch|wip_|test_)|tmp\.v$|dbg\.v$' | sort) > _CoqProject
 coq_makefile -f _CoqProject -o Makefile >/dev/null
-timeout 7200 make -j16 > ../work/setup-coq.log 2>&1 || { tail -40 ../work/setup-coq.log; echo "setup: coq build failed"; exit 1; }
+cd ..
+# targets: Props/Pins of every claimed property (incl. fragments' props_files) and the extractions of their streams
+TARGETS=$(python3 - <<'PY'
+import glob, json, os, re
+enabled = open('checks/enabled.txt').read().split()
+t = []
+for cid in enabled:
+    cfgs = [json.load(open(f)) for f in sorted(glob.glob('checks/%s.json' % cid) + glob.glob('checks/%s.*.json' % cid))]
+    names = []
+    for c in cfgs:
+        names += c.get('props_files', [])
+    if not names:
+        names = [cid]
+    for n in dict.fromkeys(names):
+        t += ['Props/%s.vo' % n, 'Pins/%s.vo' % n]
+    for c in cfgs:
+        for st in c.get('streams', []):
+            if 'extract' in st:
+                t.append(st['extract'])
+print(' '.join(dict.fromkeys(t)))
+PY
+)
+cd coq
+timeout 7200 make -j16 $TARGETS > ../work/setup-coq.log 2>&1 || { tail -40 ../work/setup-coq.log; echo "setup: coq build failed"; exit 1; }
 cd ..
 python3 - <<'PY'
 import glob, json, subprocess, sys
+enabled = open('checks/enabled.txt').read().split()
 done = set()
-for f in sorted(glob.glob('checks/C*.json')):  # base files and fragments alike
-    for st in json.load(open(f)).get('streams', []):
-        if 'extract' in st and st['driver'] not in done:
-            done.add(st['driver'])
-            r = subprocess.run(['ocaml/build.sh', st['model'], st['driver']])
-            if r.returncode:
-                print('setup: ocaml build failed for', st['driver']); sys.exit(1)
+for cid in enabled:
+    for f in sorted(glob.glob('checks/%s.json' % cid) + glob.glob('checks/%s.*.json' % cid)):
+        for st in json.load(open(f)).get('streams', []):
+            if 'extract' in st and st['driver'] not in done:
+                done.add(st['driver'])
+                r = subprocess.run(['ocaml/build.sh', st['model'], st['driver']])
+                if r.returncode:
+                    print('setup: ocaml build failed for', st['driver']); sys.exit(1)
 PY
 cd harness
 [ -f Cargo.lock ] || cp /repo/Cargo.lock .
